@@ -351,9 +351,10 @@ theorem partOps_prefix (i : Nat) {a b : List (Ev R T)} (h : a <+: b) : partOps i
   obtain ⟨r, rfl⟩ := h
   rw [partOps_append]; exact List.prefix_append _ _
 
-/-- two disks that hold the same files (temp files aside) -/
+/-- two disks that hold the same partial-results files (temp files and the final
+    results file aside: no load ever reads those) -/
 def MainEq (d d' : Disk R T) : Prop :=
-  (∀ i, (d.part i).main = (d'.part i).main) ∧ d.fin.main = d'.fin.main
+  ∀ i, (d.part i).main = (d'.part i).main
 
 theorem Slot.apply_main_congr (s s' : Slot C) (op : SlotOp C) (h : s.main = s'.main) :
     (s.apply op).main = (s'.apply op).main := by
@@ -363,11 +364,11 @@ theorem MainEq.apply {d d' : Disk R T} (h : MainEq d d') (ev : Ev R T) : MainEq 
   cases ev with
   | call i => exact h
   | part i op =>
-    refine ⟨fun j => ?_, h.2⟩
+    intro j
     by_cases hj : j = i
-    · subst hj; simp [Disk.apply, Slot.apply_main_congr _ _ op (h.1 j)]
-    · simp [Disk.apply, hj, h.1 j]
-  | fin op => exact ⟨h.1, Slot.apply_main_congr _ _ op h.2⟩
+    · subst hj; simp [Disk.apply, Slot.apply_main_congr _ _ op (h j)]
+    · simp [Disk.apply, hj, h j]
+  | fin op => exact h
 
 theorem MainEq.applyAll {d d' : Disk R T} (h : MainEq d d') (t : List (Ev R T)) :
     MainEq (d.applyAll t) (d'.applyAll t) := by
@@ -375,8 +376,8 @@ theorem MainEq.applyAll {d d' : Disk R T} (h : MainEq d d') (t : List (Ev R T)) 
   | nil => exact h
   | cons ev t ih => exact ih (h.apply ev)
 
-theorem MainEq.refl (d : Disk R T) : MainEq d d := ⟨fun _ => rfl, rfl⟩
+theorem MainEq.refl (d : Disk R T) : MainEq d d := fun _ => rfl
 
-theorem MainEq.sweep (d : Disk R T) : MainEq d.sweep d := ⟨fun _ => rfl, rfl⟩
+theorem MainEq.sweep (d : Disk R T) : MainEq d.sweep d := fun _ => rfl
 
 end PyPhysim.C07
